@@ -1,7 +1,6 @@
 import RbV.Thm.GenSrcMyersTbLoop
 import RbV.Lemmas.TracebackState
 import RbV.Lemmas.TracebackRing
-import RbV.Thm.C10
 /-!
 # The side conditions of the translated `_traceback_at` follow from the handler invariant; soundness of the translated traceback
 
@@ -129,6 +128,91 @@ theorem stepOk_of_inv (st : Stored m (2 ^ wd - 1) q lo D S (readStore store pos)
         rw [if_neg t3']
         exact diagOk (hlo (by rw [hop]; decide))
 
+/-- … for the order Subst > Del > Ins -/
+theorem stepOkD_of_inv (st : Stored m (2 ^ wd - 1) q lo D S (readStore store pos)) {i' j : Nat} {h : Handler w}
+    (inv : HInv m (2 ^ wd - 1) q D S i' j h) (hlo : ruleOpD D i' j ≠ Op.ins → lo + 1 ≤ j) : StepOkD wd pos store h := by
+  have t1 := test_subst st inv
+  have t2 := test_ins st inv
+  have t3 := test_del st inv
+  have hi := inv.hi
+  have hjq := inv.hj
+  have hmw := st.hmw
+  have hm1 := st.hm1
+  have hdm := st.hdm
+  have hp : 1 ≤ 2 ^ wd := Nat.one_le_two_pow
+  have hs := inv.sdist
+  have hl := inv.ldist
+  have hsb := colOf_le wd pos store st (j + 1) (i' + 1) (by omega) (by omega)
+  have hlb : colOf D (2 ^ wd - 1) m j i' + 1 ≤ ((2 ^ wd - 1 : Nat) : Int) := by
+    unfold colOf
+    split
+    · omega
+    · have := st.bound i' (j - 1) (by omega) (by omega); omega
+  have hsb' : colOf D (2 ^ wd - 1) m (j + 1) (i' + 1) ≤ (m : Int) := by
+    rw [colOf_succ]; have := st.bound (i' + 1) j (by omega) hjq; omega
+  -- the column the next `move_to_left` loads, and the two masks
+  have hrd : lo + 1 ≤ j → readStore store pos h.taken = S (j - 1) := by
+    intro hj
+    rw [inv.taken, st.rd _ (by omega)]
+    congr 1; omega
+  have hmaskD := leftMask_step h.leftMask i' hm1 hmw (by omega) inv.lmask
+  have diagOk : lo + 1 ≤ j → MaskOk wd pos store ((h.moveUp false).moveUpLeft false) := by
+    intro hj
+    apply maskOk_of wd pos store st _ (j - 1) (i' - 1) (by omega) (by omega)
+    · simp only [Handler.moveUpLeft, Handler.moveUp]; exact hrd hj
+    · simp only [Handler.moveUpLeft, Handler.moveUp, inv.maxMask]; exact hmaskD
+  refine ⟨by omega, by omega, ?_⟩
+  by_cases c1 : j ≥ 1 ∧ D i' (j - 1) + 1 = D (i' + 1) j
+  · have hop : ruleOpD D i' j = Op.sub := by unfold ruleOpD; rw [if_pos c1]
+    rw [if_pos (t1.mpr c1)]
+    exact diagOk (hlo (by rw [hop]; decide))
+  · rw [if_neg (fun hc => c1 (t1.mp hc))]
+    by_cases c3 : j ≥ 1 ∧ D (i' + 1) (j - 1) + 1 = D i' (j - 1)
+    · have hop : ruleOpD D i' j = Op.del := by unfold ruleOpD; rw [if_neg c1, if_pos c3]
+      have t3' : ((h.left.mv &&& h.pos) != 0#w) = true := by rw [t3]; simp [c3]
+      rw [if_pos t3']
+      have hj := hlo (by rw [hop]; decide)
+      refine ⟨?_, ?_⟩
+      · obtain ⟨j', rfl⟩ : ∃ j', j = j' + 1 := ⟨j - 1, by omega⟩
+        rw [colOf_succ] at hl
+        have := c3.2
+        simp only [Nat.add_sub_cancel] at this
+        omega
+      · apply maskOk_of wd pos store st _ (j - 1) i' (by omega) (by omega)
+        · unfold Handler.moveLeftDownIfBetter; rw [if_pos t3']; exact hrd hj
+        · unfold Handler.moveLeftDownIfBetter; rw [if_pos t3']; exact inv.lmask
+    · have t3' : ¬ (((h.left.mv &&& h.pos) != 0#w) = true) := by rw [t3]; simp [c3]
+      rw [if_neg t3']
+      by_cases c2 : D i' j + 1 = D (i' + 1) j
+      · have t2' : ((h.state.pv &&& h.pos) != 0#w) = true := by rw [t2]; simp [c2]
+        rw [if_pos t2']
+        refine ⟨?_, ?_⟩
+        · rw [colOf_succ] at hs; omega
+        · intro hne
+          cases i' with
+          | zero =>
+            exfalso; apply hne
+            rw [inv.pos, twoPow_shr_zero]; simp
+          | succ r =>
+            have hpos : h.pos >>> 1 = BitVec.twoPow w r := by rw [inv.pos]; exact twoPow_shr_succ r (by omega)
+            rw [hpos] at hne
+            have hb : (h.left.pv &&& BitVec.twoPow w r != 0#w) = true := by simpa using hne
+            rw [test_twoPow _ r (by omega), inv.lpv] at hb
+            obtain ⟨encL, _⟩ := st.enc j (by omega)
+            have e := (encL.pvb r (by omega)).mp hb
+            have h0 := colOf_nonneg st j r (by omega)
+            omega
+      · have hop : ruleOpD D i' j = Op.mat := by unfold ruleOpD; rw [if_neg c1, if_neg c3, if_neg c2]
+        have t2' : ¬ (((h.state.pv &&& h.pos) != 0#w) = true) := by rw [t2]; simp [c2]
+        rw [if_neg t2']
+        exact diagOk (hlo (by rw [hop]; decide))
+
+theorem stepOkG_of_inv (df : Bool) (st : Stored m (2 ^ wd - 1) q lo D S (readStore store pos)) {i' j : Nat} {h : Handler w}
+    (inv : HInv m (2 ^ wd - 1) q D S i' j h) (hlo : ruleOpG df D i' j ≠ Op.ins → lo + 1 ≤ j) : StepOkG wd pos store df h := by
+  cases df
+  · simp only [StepOkG, ruleOpG, Bool.false_eq_true, if_false] at hlo ⊢; exact stepOk_of_inv wd pos store st inv hlo
+  · simp only [StepOkG, ruleOpG, if_true] at hlo ⊢; exact stepOkD_of_inv wd pos store st inv hlo
+
 theorem ruleNext_sum (D : Nat → Nat → Nat) (i j : Nat) : (ruleNext D i j).1 + (ruleNext D i j).2 ≤ i + j := by
   unfold ruleNext
   cases h : ruleOp D i j with
@@ -149,9 +233,9 @@ theorem ruleNext_sum (D : Nat → Nat → Nat) (i j : Nat) : (ruleNext D i j).1 
     omega
 
 /-- **the side conditions hold along the whole loop, which ends within `i + j` passes** -/
-theorem runOk_of_inv (st : Stored m (2 ^ wd - 1) q lo D S (readStore store pos)) :
-    ∀ (F i j : Nat) (h : Handler w), HInvAny m (2 ^ wd - 1) q D S i j h → lo ≤ (walkF D F i j).1 → i + j ≤ F →
-      RunOk wd pos store F h := by
+theorem runOk_of_inv (df : Bool) (st : Stored m (2 ^ wd - 1) q lo D S (readStore store pos)) :
+    ∀ (F i j : Nat) (h : Handler w), HInvAny m (2 ^ wd - 1) q D S i j h → lo ≤ (walkG df D F i j).1 → i + j ≤ F →
+      RunOk wd pos store df F h := by
   intro F
   induction F with
   | zero =>
@@ -169,19 +253,19 @@ theorem runOk_of_inv (st : Stored m (2 ^ wd - 1) q lo D S (readStore store pos))
     | succ i' =>
       simp only [HInvAny] at inv
       have hi := inv.hi
-      rw [walkF_step] at hlo
+      rw [walkG_step] at hlo
       simp only at hlo
-      have hle := walkF_start_le D F (ruleNext D i' j).1 (ruleNext D i' j).2
-      have hsnd := ruleNext_snd D i' j
-      have hlo' : ruleOp D i' j ≠ Op.ins → lo + 1 ≤ j := by
+      have hle := walkG_start_le df D F (ruleNextG df D i' j).1 (ruleNextG df D i' j).2
+      have hsnd := ruleNextG_snd df D i' j
+      have hlo' : ruleOpG df D i' j ≠ Op.ins → lo + 1 ≤ j := by
         intro hne
         rw [if_neg hne] at hsnd
         cases j with
-        | zero => exact absurd (ruleOp_col0 st i' hi) hne
+        | zero => exact absurd (ruleOpG_col0 df st i' hi) hne
         | succ j' => simp only [Nat.add_sub_cancel] at hsnd; omega
-      obtain ⟨_, _, e3⟩ := iter_spec st inv hlo'
-      have hsum := ruleNext_sum D i' j
-      exact Or.inr ⟨stepOk_of_inv wd pos store st inv hlo', ih _ _ _ e3 hlo (by omega)⟩
+      obtain ⟨_, _, e3⟩ := iterG_spec df st inv hlo'
+      have hsum := ruleNextG_sum df D i' j
+      exact Or.inr ⟨stepOkG_of_inv wd pos store df st inv hlo', ih _ _ _ e3 hlo (by omega)⟩
 
 end
 
@@ -218,22 +302,29 @@ theorem traceback_source_sound (w wd : Nat) (eqv : Nat → Nat → Bool) (p t : 
     rw [storeAll_length]; exact hold
   have hp : (stop + 1) % N < store.length := by rw [hlen]; exact Nat.mod_lt _ hN
   have st := stored_concrete w eqv p (2 ^ wd - 1) N old t stop stop hm1 hw hd hN hold hs (Nat.le_refl _)
-  obtain ⟨hmodel, hcheck⟩ := RbV.Thm.C10.traceback_model_sound w eqv p t (2 ^ wd - 1) k stop old hm1 hw hd hold h1 hs d hdv hk
-  -- the window: the walk ends at a column that is still in the ring
+  obtain ⟨df, hstep⟩ := step_eqG wd ((stop + 1) % N) store hw1 hwd hw63 hp
+  -- the walk of the order the text has, and its soundness
+  obtain ⟨wa, wb⟩ := walkG_sound df eqv p t _ (isSellers_matrix eqv p t) (p.length + stop) p.length stop (Nat.le_refl _) hs
+    (Nat.le_refl _)
+  rw [Dm_matrix _ p t p.length stop (Nat.le_refl _) hs, List.take_length] at wb
   have hrow := RbV.Model.Ukkonen.lastRow_cell (unitW eqv) p t (stop - 1) (by omega)
   have e : stop - 1 + 1 = stop := by omega
-  rw [e, hdv] at hrow
-  injection hrow with hrow
-  have hspan := traceback_span eqv p t stop hs
-  rw [← hrow] at hspan
-  have hwin : stop + 2 - N ≤ (walkF (Dm (matrix (unitW eqv) p t)) (p.length + stop) p.length stop).1 := by
-    have : (traceback (unitW eqv) p t stop).1 = (walkF (Dm (matrix (unitW eqv) p t)) (p.length + stop) p.length stop).1 := rfl
-    rw [← this]
+  rw [e] at hrow
+  have hcd : RbV.Model.Ukkonen.cell (unitW eqv) p (t.take stop) p.length = d := by
+    rw [hdv] at hrow; injection hrow with hrow; exact hrow.symm
+  -- the window: the walk ends at a column that is still in the ring
+  have hlenA := acost_len eqv _ _ _ _ wb
+  have hl := cell_le_len (unitW eqv) p (t.take stop) p.length
+  simp only [List.length_drop, List.length_take] at hlenA
+  have hwin : stop + 2 - N ≤ (walkG df (Dm (matrix (unitW eqv) p t)) (p.length + stop) p.length stop).1 := by
     show stop + 2 - (p.length + min k p.length + 2) ≤ _
     omega
   have hstart := start_inv st (by show stop + 2 - N + 1 ≤ stop + 1; omega)
   simp only [Nat.add_sub_cancel] at hstart
-  have hrun := runOk_of_inv wd ((stop + 1) % N) store st (p.length + stop) p.length stop _ hstart hwin (Nat.le_refl _)
+  have hrun := runOk_of_inv wd ((stop + 1) % N) store df st (p.length + stop) p.length stop _ hstart hwin (Nat.le_refl _)
+  have hrd := tracebackRdG_eq df st (by omega) (p.length + stop) (by simpa using hwin)
+  simp only [Nat.add_sub_cancel] at hrd
+  have hinv := seqStates_inv w eqv p (2 ^ wd - 1) t hm1 hw stop hs
   -- the initial `move_up_left(true)`
   have r1 : readStore store ((stop + 1) % N) 1 = (seqStates w eqv p (2 ^ wd - 1) t).getD stop ⟨0#w, 0#w, 0⟩ := by
     have := st.rd 1 (by show 1 + (stop + 2 - N) ≤ stop + 1; omega)
@@ -262,12 +353,21 @@ theorem traceback_source_sound (w wd : Nat) (eqv : Nat → Nat → Bool) (p t : 
     have e2 : p.length - 1 + 1 = p.length := by omega
     rw [e2] at e1
     omega
-  have heq := tracebackAt_eq_model wd ((stop + 1) % N) store hw1 hwd hw63 p.length hm1 hw (by omega) hp (p.length + stop)
+  have heq := tracebackAt_eq_model wd ((stop + 1) % N) store hw1 df hstep p.length hm1 hw (by omega) hp (p.length + stop)
     (some []) hs1 hs2 hrun (by omega)
-  refine ⟨(tracebackRd (2 ^ wd - 1) p.length (readStore store ((stop + 1) % N)) (p.length + stop)).1,
-    (tracebackRd (2 ^ wd - 1) p.length (readStore store ((stop + 1) % N)) (p.length + stop)).2.1,
-    (tracebackRd (2 ^ wd - 1) p.length (readStore store ((stop + 1) % N)) (p.length + stop)).2.2, ?_, ?_⟩
-  · rw [heq]; simp
-  · exact hcheck
+  rw [hrd] at heq
+  refine ⟨stop - (walkG df (Dm (matrix (unitW eqv) p t)) (p.length + stop) p.length stop).1,
+    RbV.Model.Ukkonen.cell (unitW eqv) p (t.take stop) p.length,
+    (walkG df (Dm (matrix (unitW eqv) p t)) (p.length + stop) p.length stop).2, ?_, ?_⟩
+  · rw [heq]
+    have hdist := hinv.dist
+    simp only [List.getD_eq_getElem?_getD] at hdist
+    simp [hdist]
+  · have hst' : stop - (stop - (walkG df (Dm (matrix (unitW eqv) p t)) (p.length + stop) p.length stop).1) =
+        (walkG df (Dm (matrix (unitW eqv) p t)) (p.length + stop) p.length stop).1 := by omega
+    rw [hst']
+    have hk' : RbV.Model.Ukkonen.cell (unitW eqv) p (t.take stop) p.length ≤ k := by rw [hcd]; exact hk
+    unfold checkHit checkHitRow
+    simp only [wa, h1, hs, wb, hrow, hk', decide_true, Bool.and_self, beq_self_eq_true]
 
 end RbV.Thm.GenSrcMyersTbSound
